@@ -32,11 +32,25 @@ CLAIMED = {
                 "result exists otherwise); overflow checks are those of the debug profile. Callers elsewhere in libwild are "
                 "not checked against these preconditions.",
     },
+    "C13": {
+        "category": "proof",
+        "design_ref": "DESIGN.md section 6, C13",
+        "technique": "Kani loop-free full-domain harnesses (contract form: assume pre / call real encoder / assert post) per instruction kind on AArch64Instruction, RiscVInstruction, LoongArch64Instruction::{write_to_value,read_value}; CBMC over every 32/64-bit word x every field value",
+        "text": "For each of the 25 ELF instruction kinds the real encoder is run on a fully symbolic instruction word and value and CBMC proves: bits outside the ISA's immediate field (mask transcribed from the ISA manual, not taken from wild) and bytes after the instruction are unchanged; the ISA's decoder applied to the result returns the value; two words differing only inside the field give identical results; wild's read_value inverts write_to_value. These are loop-free bit-vector functions, so a SAT proof over the whole domain is the natural level.",
+        "note": "Trusted: field masks/decoders transcribed from Arm ARM C6.2, RISC-V ISA ch. 2.3/16, LoongArch manual vol.1; Kani/CBMC. AArch64/LoongArch kinds are specified for values that fit the field (x < 2^width) - that every relocation-table row hands the encoder such a value is proved in C12/C01's table lemma for AArch64 only. MachOLow12 excluded (Mach-O only). LoongArch Call30: frame+independence only. Two known findings (RISC-V UType.read_value, LoongArch Call36 carry) are listed in known_findings.json.",
+    },
+    "C12": {
+        "category": "proof",
+        "design_ref": "DESIGN.md section 6, C12",
+        "technique": "Kani full-domain harnesses over symbolic r_type: u32 x value: u64 on x86_64::relocation_from_raw / aarch64::relocation_type_from_raw -> RelocationKindInfo::write_to_buffer, against accept sets transcribed from GNU ld, lld and aaelf64; plus contracts of AllowedRange::{from_bit_size,from_byte_size,contains}",
+        "text": "For every relocation type number and every 64-bit value CBMC proves on the real tables and the real write_to_buffer: a value both GNU ld and lld accept is accepted, a value both reject is rejected, the field width is the psABI's, an accepted value reads back from the written bytes as itself (never silently truncated), and an error leaves the buffer untouched; for AArch64 additionally that the written instruction field is X[hi:lo] of the psABI row. The tables are const match expressions without loops, so the whole domain is covered symbolically.",
+        "note": "Trusted: the hand transcription of bfd's howto table, lld's relocate() checks and aaelf64 5.7 (rows whose check could not be transcribed confidently are marked Unknown and get only oracle-free obligations); format/backtrace stubs on the error path. Not covered: the computation of the value handed to write_to_buffer (apply_relocation), RISC-V and LoongArch tables, ULEB128 pairs.",
+    },
 }
 
 PENDING = {
     pid: "check under construction in this session (planned claim, see DESIGN.md section 6); not claimed until its obligations run green"
-    for pid in ["C01", "C02", "C08", "C09", "C11", "C12", "C13", "C14", "C15", "C16", "C17", "C22", "C30", "C36"]
+    for pid in ["C01", "C02", "C08", "C09", "C11", "C14", "C15", "C16", "C17", "C22", "C30", "C36"]
 }
 
 NOT_APPLICABLE = {
